@@ -93,6 +93,13 @@ def outcomeStr : Outcome → String
   | .loops => "loops"
   | .error e => "err:" ++ e.tag
 
+/-- `data_category == DATA_CATEGORY_DEFINE_BUFR_TABLES and n_subsets > 0` on the decode in hand (repair F25) -/
+def isTableDefMsg (m : MsgInfo (DecMsg (List SubsetOut))) : Bool :=
+  match (m.msg.sections.findSome? (fun s => s.params.lookup "data_category") : Option PVal),
+        (m.msg.sections.findSome? (fun s => s.params.lookup "n_subsets") : Option PVal) with
+  | some (PVal.int c), some (PVal.int n) => c == 11 && n > 0
+  | _, _ => false
+
 def opScan (st : DrvState) (j : Json) : J (DrvState × Json) := do
   let bytes ← hexToBytes (← asStr (← fld j "hex"))
   let info ← optBool j "info_only" false
@@ -113,7 +120,7 @@ def opScan (st : DrvState) (j : Json) : J (DrvState × Json) := do
     | some e => some fun m => FilterExpr.run e m.msg.sections
     | none => filt.map evalFilter
   let cfg : Cfg (DecMsg (List SubsetOut)) :=
-    { infoOnly := info, continueOnError := cont, filter := pred }
+    { infoOnly := info, continueOnError := cont, filter := pred, tableDef := isTableDefMsg }
   let (items, out) := scan (ofSections Gen.layouts (tableCoder st.tables) ign) cfg bytes
   pure (st, jobj [("items", jarr (items.map fun it => jarr [jnat it.offset, jnat it.bytes.length, jnat it.info.consumed])),
                   ("outcome", jstr (outcomeStr out))])
